@@ -1,5 +1,6 @@
 """Independent MDL builder, dump reader, typed reference decoders and an independent MDL header
 parser (used by C06, C07, C18). Layout as documented (Lumina / Penumbra / TexTools)."""
+import random
 import struct
 
 # vertex types / usages
@@ -105,14 +106,35 @@ def build(m):
         vbuf = b""
         ibuf = b""
         start = 0
-        for me in l:
-            offs = [0, 0, 0]
-            for s in range(me["nstreams"]):
-                offs[s] = len(vbuf)
+        if m.get("stream_shuffle_seed") is not None:
+            # every stream carries its own offset into the LOD's vertex section: lay the (mesh, stream) runs out in a
+            # shuffled order with unused bytes between them
+            lr = random.Random(m["stream_shuffle_seed"] * 7 + li)
+            runs = [(mi, s) for mi, me in enumerate(l) for s in range(me["nstreams"])]
+            lr.shuffle(runs)
+            for me in l:
+                me["_offs"] = [0, 0, 0]
+            for (mi, s) in runs:
+                me = l[mi]
                 assert len(me["streams"][s]) == me["vcount"] * me["strides"][s]
+                vbuf += bytes(lr.randrange(256) for _ in range(lr.choice([0, 0, 1, 3, 4, 16])))
+                me["_offs"][s] = len(vbuf)
                 vbuf += me["streams"][s]
+        for me in l:
+            if m.get("stream_shuffle_seed") is None:
+                offs = [0, 0, 0]
+                for s in range(me["nstreams"]):
+                    offs[s] = len(vbuf)
+                    assert len(me["streams"][s]) == me["vcount"] * me["strides"][s]
+                    vbuf += me["streams"][s]
+                me["_offs"] = offs
+            if m.get("stream_shuffle_seed") is not None and me is not l[0]:
+                # unused indices between the index runs of the meshes (each mesh carries its own start index; the first mesh
+                # of a LOD keeps start index 0, the only position shapes are generated for - see ASSUMPTIONS of C06)
+                junk = random.Random(m["stream_shuffle_seed"] * 11 + li * 5 + len(ibuf)).choice([0, 0, 1, 5])
+                ibuf += b"".join(struct.pack("<H", 0xEEEE) for _ in range(junk))
+                start += junk
             me["_start_index"] = start
-            me["_offs"] = offs
             me["_submesh_index"] = len(submesh_recs)
             so = start
             for (cnt, mask, bs, bc) in me["submeshes"]:
@@ -173,7 +195,7 @@ def build(m):
         b = b""
         for me in meshes:
             b += struct.pack("<H2xIHHHHI3I3BB", me["vcount"], len(me["indices"]), me.get("material", 0), me["_submesh_index"], len(me["submeshes"]), me.get("bone_table", 0),
-                             me["_start_index"], *me["_offs"], *(list(me["strides"]) + [0] * (3 - len(me["strides"]))), me["nstreams"])
+                             me["_start_index"], *me["_offs"], *(list(me["strides"]) + [me.get("unused_stride", 0)] * (3 - len(me["strides"]))), me["nstreams"])
         b += b"".join(struct.pack("<I", S.off[n]) for n in m.get("attributes", []))
         b += b"".join(tsm)
         b += b"".join(struct.pack("<IIIHH", *r) for r in submesh_recs)
